@@ -396,7 +396,7 @@ def _shape_items(tier):
 
 
 def phases(tier):
-    n = 4000 if tier == "quick" else 200000
+    n = 4000 if tier == "quick" else 60000
     return [
         Phase("pattern-shapes", "enum", items=lambda: _shape_items(tier), exhaustive=True, distinct=True, chunk=50),
         Phase("multibyte-docs", "gen", strategy=_mb_doc, n=n),
